@@ -276,7 +276,100 @@ static rc::Gen<TaskCase> genCase() {
   });
 }
 
+// ---------------------------------------------------------------- file variant: tp_task_rw_handler (pread / pwrite at a file offset)
+struct FileCase {
+  int dir = 0, buf_size = 64, win_off = 0, win_len = 64, used0 = 0, file_size = 0, file_off = 0, sealed = 0;
+  std::string ser() const {
+    Writer w;
+    w.i("dir", dir).i("buf_size", buf_size).i("win_off", win_off).i("win_len", win_len).i("used0", used0).i("file_size", file_size).i("file_off", file_off).i("sealed", sealed);
+    return w.str();
+  }
+  static FileCase parse(const std::string &t) {
+    Reader r(t);
+    FileCase c;
+    c.dir = (int)r.i("dir"); c.buf_size = (int)r.i("buf_size", 64); c.win_off = (int)r.i("win_off"); c.win_len = (int)r.i("win_len", 64); c.used0 = (int)r.i("used0");
+    c.file_size = (int)r.i("file_size"); c.file_off = (int)r.i("file_off"); c.sealed = (int)r.i("sealed");
+    return c;
+  }
+};
+void showValue(const FileCase &c, std::ostream &os) { os << c.ser(); }
+
+static Verdict run_file(const FileCase &c) {
+  PBT_REQUIRE(c.win_len >= 1 && c.win_off + c.win_len <= c.buf_size && c.buf_size <= 4096 && c.file_size <= 8000 && c.file_off + c.win_len <= 8192, "harness: file scenario outside its envelope");
+  c16f_scn s;
+  memset(&s, 0, sizeof s);
+  s.dir = (uint8_t)c.dir; s.buf_size = (uint16_t)c.buf_size; s.win_off = (uint16_t)c.win_off; s.win_len = (uint16_t)c.win_len; s.used0 = (uint16_t)c.used0;
+  s.file_size = (uint32_t)c.file_size; s.file_off = (uint32_t)c.file_off; s.sealed = (uint8_t)(c.sealed && c.dir == 1);
+  std::unique_ptr<c16f_out> op(new c16f_out());
+  c16f_out &o = *op;
+  alarm(120);
+  c16f_run(&s, &o);
+  alarm(0);
+  PBT_REQUIRE(o.setup_rc == 0, "harness: setup failed " << o.setup_rc);
+  PBT_REQUIRE(o.res.live_fds == 0 && o.res.live_allocs == 0 && o.res.double_free == 0, "file task left resources behind (descriptors " << o.res.live_fds << ", allocations " << o.res.live_allocs << ")");
+  std::ostringstream tg;
+  tg << (c.dir ? "write" : "read") << " task, window [" << c.win_off << "," << c.win_off + c.win_len << ") of " << c.buf_size << ", file of " << c.file_size << " bytes" << (s.sealed ? " (cannot grow)" : "") << ", offset " << c.file_off;
+  std::string tag = tg.str();
+  PBT_REQUIRE(o.start_rc == 0, tag << ": tp_task_start_ex() returned " << o.start_rc << " (callbacks made: " << o.ncb << ")");
+  PBT_REQUIRE(o.ncb == 1, tag << ": " << o.ncb << " callbacks, exactly one report is expected for the direct transfer");
+  const c16_cb &cb = o.cb[0];
+  PBT_REQUIRE(cb.on_owner, tag << ": callback on a foreign thread");
+  const uint8_t *img = o.buf_image;
+  for (int i = 0; i < 32; i++) PBT_REQUIRE(img[i] == 0xfd && img[32 + c.buf_size + i] == 0xfd, tag << ": bytes outside the buffer were modified");
+  const uint8_t *buf = img + 32;
+  uint64_t n = cb.transfered;
+  PBT_REQUIRE(n <= (uint64_t)c.win_len, tag << ": " << n << " bytes reported, the window has " << c.win_len);
+  PBT_REQUIRE(cb.offset == (uint64_t)c.win_off + n && cb.tr_size == (uint64_t)c.win_len - n, tag << ": cursors offset/transfer_size " << cb.offset << "/" << cb.tr_size << " after " << n << " bytes");
+  if (c.dir == 0) {
+    uint64_t avail = c.file_size > c.file_off ? (uint64_t)(c.file_size - c.file_off) : 0, want = std::min<uint64_t>(avail, c.win_len);
+    PBT_REQUIRE(cb.error == 0, tag << ": error " << cb.error);
+    PBT_REQUIRE(n == want, tag << ": " << n << " bytes reported, the file has " << want << " for this window");
+    for (int i = 0; i < c.buf_size; i++) {
+      if (i >= c.win_off && i < c.win_off + (int)n) PBT_REQUIRE(buf[i] == c16f_file_pattern((uint64_t)c.file_off + (i - c.win_off)), tag << ": window byte " << i - c.win_off << " is not the file's byte at position " << c.file_off + (i - c.win_off));
+      else PBT_REQUIRE(buf[i] == 0xfe, tag << ": buffer byte " << i << " outside the transferred range was written");
+    }
+    PBT_REQUIRE(cb.used == std::min<uint64_t>(c.buf_size, (uint64_t)c.used0 + n), tag << ": 'used' is " << cb.used);
+    if (n < (uint64_t)c.win_len) { PBT_REQUIRE(cb.eof & 2, tag << ": end of file inside the window not flagged (eof " << cb.eof << ")"); label("file_read_hits_eof"); }
+    else PBT_REQUIRE(!(cb.eof & 2), tag << ": end-of-file flag although the window was filled");
+    label("file_read");
+  } else {
+    // what the file must look like: original content (pattern, zeros in a hole), the first n window bytes at file_off
+    uint64_t room = s.sealed ? (c.file_size > c.file_off ? (uint64_t)(c.file_size - c.file_off) : 0) : (uint64_t)c.win_len;
+    PBT_REQUIRE(n <= room, tag << ": " << n << " bytes reported written, only " << room << " fit");
+    if (n == (uint64_t)c.win_len) PBT_REQUIRE(cb.error == 0, tag << ": error " << cb.error << " although the whole window was written");
+    else { PBT_REQUIRE(cb.error != 0 && cb.error != ETIMEDOUT, tag << ": only " << n << " of " << c.win_len << " bytes written but no error reported"); label("file_write_short_then_error"); }
+    if (!s.sealed) PBT_REQUIRE(n == (uint64_t)c.win_len, tag << ": short write on a file that can grow");
+    uint64_t size_want = std::max<uint64_t>(c.file_size, n ? (uint64_t)c.file_off + n : 0);
+    PBT_REQUIRE(o.file_size_after == size_want, tag << ": file size afterwards " << o.file_size_after << ", expected " << size_want);
+    for (uint64_t p = 0; p < o.file_size_after && p < sizeof(o.file_image); p++) {
+      uint8_t want = (p >= (uint64_t)c.file_off && p < (uint64_t)c.file_off + n) ? c16_pattern(p - c.file_off) : (p < (uint64_t)c.file_size ? c16f_file_pattern(p) : 0);
+      PBT_REQUIRE(o.file_image[p] == want, tag << ": file byte " << p << " is " << (int)o.file_image[p] << ", expected " << (int)want << " (" << n << " bytes reported written)");
+    }
+    label("file_write");
+  }
+  nontrivial_cur();
+  return Verdict::pass();
+}
+
+static rc::Gen<FileCase> genFile() {
+  return rc::gen::exec([]() {
+    FileCase c;
+    c.dir = *range<int>(0, 1);
+    c.buf_size = *rc::gen::element(8, 64, 100, 512, 1000, 4096);
+    c.win_off = *rc::gen::weightedElement<int>({{2, 0}, {3, *range<int>(0, c.buf_size - 1)}});
+    c.win_len = *rc::gen::weightedElement<int>({{2, c.buf_size - c.win_off}, {3, *range<int>(1, c.buf_size - c.win_off)}});
+    c.used0 = *rc::gen::weightedElement<int>({{3, c.win_off}, {1, 0}});
+    c.file_size = *rc::gen::weightedElement<int>({{1, 0}, {3, *range<int>(1, 600)}, {2, *range<int>(3000, 5000)}, {1, 4096}, {1, 8000}});
+    // offsets around the end of the file and around a page boundary
+    c.file_off = *rc::gen::weightedElement<int>({{2, 0}, {3, *range<int>(0, std::max(0, c.file_size))}, {2, std::max(0, c.file_size - *range<int>(0, c.win_len))}, {1, std::max(0, 4096 - *range<int>(0, c.win_len))}});
+    c.file_off = std::max(0, std::min(c.file_off, 8192 - c.win_len));
+    c.sealed = (c.dir == 1) ? *range<int>(0, 1) : 0;
+    return c;
+  });
+}
+
 int main(int argc, char **argv) {
   add_check<TaskCase>("task_histories", 800, 100, genCase, run_case);
+  add_check<FileCase>("file_tasks", 1500, 100, genFile, run_file);
   return driver_main(argc, argv);
 }
